@@ -10,6 +10,7 @@ Local Ltac Zify.zify_post_hook ::= Z.div_mod_to_equations.
 Local Opaque q.
 
 Ltac zl := unfold u64, W in *; lia.
+Ltac zw := rewrite ?WW_val in *; unfold u64, W in *; lia.
 
 (* ------------------------------------------------------------------ *)
 (** * Congruence modulo q as a setoid *)
@@ -32,7 +33,7 @@ Proof. unfold eqq. rewrite Z.mod_same by (pose proof q_pos'; lia). reflexivity. 
 Lemma eqq_RRinv : WW * Rinv ==q 1.
 Proof.
   unfold eqq. rewrite WW_Rinv_spec. symmetry. apply Z.mod_small.
-  pose proof q_two_lt_R. pose proof q_pos'. pose proof q_odd'. lia.
+  pose proof q_gt_2'. lia.
 Qed.
 
 Lemma eqq_pow : forall a b e, a ==q b -> a ^ e ==q b ^ e.
@@ -224,7 +225,7 @@ Lemma add4_exact : forall x y, limbs_ok x -> limbs_ok y -> val x + val y < WW ->
   limbs_ok (fst (add4 x y)) /\ val (fst (add4 x y)) = val x + val y /\ snd (add4 x y) = 0.
 Proof.
   intros x y Hx Hy Hlt. destruct (add4_spec x y Hx Hy) as (Hl & Hv & Hc).
-  pose proof (limbs_val _ Hl). split; [ exact Hl | ]. lia.
+  pose proof (limbs_val _ Hl). split; [ exact Hl | ]. zw.
 Qed.
 
 Lemma sub4_exact : forall x y, limbs_ok x -> limbs_ok y -> val y <= val x ->
@@ -232,7 +233,7 @@ Lemma sub4_exact : forall x y, limbs_ok x -> limbs_ok y -> val y <= val x ->
 Proof.
   intros x y Hx Hy Hle. destruct (sub4_spec x y Hx Hy) as (Hl & Hv & Hc).
   pose proof (limbs_val _ Hl). pose proof (limbs_val _ Hx). pose proof (limbs_val _ Hy).
-  split; [ exact Hl | ]. lia.
+  split; [ exact Hl | ]. zw.
 Qed.
 
 Lemma sub4_borrow : forall x y, limbs_ok x -> limbs_ok y -> val x < val y ->
@@ -240,7 +241,7 @@ Lemma sub4_borrow : forall x y, limbs_ok x -> limbs_ok y -> val x < val y ->
 Proof.
   intros x y Hx Hy Hlt. destruct (sub4_spec x y Hx Hy) as (Hl & Hv & Hc).
   pose proof (limbs_val _ Hl). pose proof (limbs_val _ Hx). pose proof (limbs_val _ Hy).
-  split; [ exact Hl | ]. lia.
+  split; [ exact Hl | ]. zw.
 Qed.
 
 (* wrapping add after a borrow: (a - b + WW) + c - WW *)
@@ -249,7 +250,7 @@ Lemma add4_wrap : forall x y, limbs_ok x -> limbs_ok y -> WW <= val x + val y ->
 Proof.
   intros x y Hx Hy Hle. destruct (add4_spec x y Hx Hy) as (Hl & Hv & Hc).
   pose proof (limbs_val _ Hl). pose proof (limbs_val _ Hx). pose proof (limbs_val _ Hy).
-  split; [ exact Hl | ]. lia.
+  split; [ exact Hl | ]. zw.
 Qed.
 
 (* ------------------------------------------------------------------ *)
